@@ -20,8 +20,15 @@ def Safe {α : Type} : Out α → Prop
   | .panic => False
   | .hang => True
 
-theorem Good.upd {s s' : St} (h : Good s) (hd : s'.dead = s.dead) (ha : s'.allocs = s.allocs) : Good s' := by
-  unfold Good AllocsBounded at *; rw [hd, ha]; exact h
+theorem Good.upd {s s' : St} (h : Good s) (hd : s'.dead = false) (ha : s'.allocs = s.allocs) : Good s' := by
+  unfold Good AllocsBounded at *; rw [hd, ha]; exact ⟨rfl, h.2⟩
+
+/-- Case analysis on a sub-call whose safety `h` is known: only the `.ok` case remains. -/
+macro "ocases " h:ident " : " e:term : tactic =>
+  `(tactic| (generalize $e = x at $h:ident ⊢; cases x <;> (try dsimp only at $h:ident ⊢) <;>
+      (try (first | exact $h | exact False.elim $h | exact True.intro))))
+
+macro "upd " h:ident : tactic => `(tactic| exact Good.upd $h (by first | rfl | exact ($h).1) rfl)
 
 theorem Safe.bind {α β : Type} {x : Out α} {f : α → St → Out β} (hx : Safe x)
     (hf : ∀ a s, Good s → Safe (f a s)) : Safe (x.bind f) := by
@@ -29,39 +36,41 @@ theorem Safe.bind {α β : Type} {x : Out α} {f : α → St → Out β} (hx : S
 
 theorem safe_qsReadByte (s : St) (h : Good s) : Safe (qsReadByte s) := by
   unfold qsReadByte
-  simp only [h.1, Bool.false_eq_true, if_false]
   split
-  · exact h
-  · exact h.upd rfl rfl
+  · rename_i hd; rw [h.1] at hd; cases hd
+  · split
+    · exact h
+    · upd h
 
 theorem safe_recordBytesRead (s : St) (n : Nat) (h : Good s) : Safe (recordBytesRead s n) := by
   unfold recordBytesRead
   split
   · exact h
   · split
-    · exact h.upd rfl rfl
-    · exact h.upd rfl rfl
+    · upd h
+    · upd h
 
 theorem safe_readByte (s : St) (h : Good s) : Safe (readByte s) := by
   unfold readByte
   have h1 := safe_recordBytesRead s 1 h
-  split <;> simp_all [Safe]
-  rename_i s1 _
+  ocases h1 : recordBytesRead s 1
+  rename_i a s1
   have h2 := safe_qsReadByte s1 h1
-  split <;> simp_all [Safe]
+  ocases h2 : qsReadByte s1
   split <;> exact h2
 
 theorem safe_qsRead (s : St) (k : Nat) (h : Good s) :
     ∃ bs eof s1, qsRead s k = some (bs, eof, s1) ∧ Good s1 := by
   unfold qsRead
-  simp only [h.1, Bool.false_eq_true, if_false]
   split
-  · exact ⟨_, _, _, rfl, h⟩
+  · rename_i hd; rw [h.1] at hd; cases hd
   · split
-    · exact ⟨_, _, _, rfl, h.upd rfl rfl⟩
+    · exact ⟨_, _, _, rfl, h⟩
     · split
-      · exact ⟨_, _, _, rfl, h.upd rfl rfl⟩
-      · exact ⟨_, _, _, rfl, h.upd rfl rfl⟩
+      · exact ⟨_, _, _, rfl, by upd h⟩
+      · split
+        · exact ⟨_, _, _, rfl, by upd h⟩
+        · exact ⟨_, _, _, rfl, by upd h⟩
 
 theorem safe_read (s : St) (k : Nat) (h : Good s) : Safe (NetVerif.Model.H3Stream.read s k) := by
   unfold NetVerif.Model.H3Stream.read
@@ -69,9 +78,10 @@ theorem safe_read (s : St) (k : Nat) (h : Good s) : Safe (NetVerif.Model.H3Strea
   rw [hq]
   simp only
   have h2 := safe_recordBytesRead s1 bs.length h1
-  split <;> simp_all [Safe]
+  ocases h2 : recordBytesRead s1 bs.length
+  rename_i a_ s_
   repeat' split
-  all_goals simp_all [Safe]
+  all_goals exact h2
 
 theorem safe_readFullAux : ∀ (fuel : Nat) (s : St) (want : Nat) (acc : List Nat), Good s →
     Safe (readFullAux fuel s want acc) := by
@@ -84,7 +94,8 @@ theorem safe_readFullAux : ∀ (fuel : Nat) (s : St) (want : Nat) (acc : List Na
     split
     · exact h
     · have h1 := safe_read s want h
-      split <;> simp_all [Safe]
+      ocases h1 : NetVerif.Model.H3Stream.read s want
+      rename_i a_ s_
       repeat' split
       all_goals (first | exact h1 | exact ih _ _ _ h1)
 
@@ -99,18 +110,20 @@ theorem safe_qsReadBE : ∀ (k v : Nat) (s : St), Good s → Safe (qsReadBE k v 
     intro v s h
     unfold qsReadBE
     have h1 := safe_qsReadByte s h
-    split <;> simp_all [Safe]
+    ocases h1 : qsReadByte s
+    rename_i a_ s_
+    exact ih _ _ h1
 
 theorem safe_readVarint (s : St) (h : Good s) : Safe (readVarint s) := by
   unfold readVarint
   have h1 := safe_qsReadByte s h
-  split <;> simp_all [Safe]
-  rename_i b s1 _
+  ocases h1 : qsReadByte s
+  rename_i b s1
   have h2 := safe_qsReadBE (2 ^ (b / 64) - 1) (b % 64) s1 h1
-  split <;> simp_all [Safe]
-  rename_i v s2 _
+  ocases h2 : qsReadBE (2 ^ (b / 64) - 1) (b % 64) s1
+  rename_i v s2
   have h3 := safe_recordBytesRead s2 (2 ^ (b / 64)) h2
-  split <;> simp_all [Safe]
+  ocases h3 : recordBytesRead s2 (2 ^ (b / 64))
 
 theorem safe_readFrameHeader (s : St) (h : Good s) : Safe (readFrameHeader s) := by
   unfold readFrameHeader
@@ -120,13 +133,14 @@ theorem safe_readFrameHeader (s : St) (h : Good s) : Safe (readFrameHeader s) :=
     intro ft s1 h1
     refine Safe.bind (safe_readVarint s1 h1) ?_
     intro size s2 h2
-    exact h2.upd rfl rfl
+    show Good _
+    upd h2
 
 theorem safe_endFrame (s : St) (h : Good s) : Safe (endFrame s) := by
   unfold endFrame
   split
   · exact h
-  · exact h.upd rfl rfl
+  · show Good _; upd h
 
 theorem safe_discardLoop : ∀ (k : Nat) (s : St), Good s → Safe (discardLoop k s) := by
   intro k
@@ -136,18 +150,373 @@ theorem safe_discardLoop : ∀ (k : Nat) (s : St), Good s → Safe (discardLoop 
     intro s h
     unfold discardLoop
     have h1 := safe_qsReadByte s h
-    split <;> simp_all [Safe]
+    ocases h1 : qsReadByte s
+    rename_i a_ s_
+    exact ih _ h1
 
 theorem safe_discardFrame (s : St) (h : Good s) : Safe (discardFrame s) := by
   unfold discardFrame
   refine Safe.bind (safe_discardLoop _ s h) ?_
   intro _ s1 h1
-  exact h1.upd rfl rfl
+  show Good _
+  upd h1
 
 theorem safe_discardUnknownFrame (s : St) (ft : Nat) (h : Good s) : Safe (discardUnknownFrame s ft) := by
   unfold discardUnknownFrame
   split
   · exact h
   · exact safe_discardFrame s h
+
+/-! ### settings.go -/
+
+theorem safe_settingsLoop : ∀ (fuel : Nat) (s : St) (acc : List (Nat × Nat)), Good s →
+    Safe (settingsLoop fuel s acc) := by
+  intro fuel
+  induction fuel with
+  | zero => intro s acc _; exact True.intro
+  | succ f ih =>
+    intro s acc h
+    unfold settingsLoop
+    split
+    · refine Safe.bind (safe_readVarint s h) ?_
+      intro t s1 h1
+      refine Safe.bind (safe_readVarint s1 h1) ?_
+      intro v s2 h2
+      split
+      · exact h2
+      · exact ih _ _ h2
+    · refine Safe.bind (safe_endFrame s h) ?_
+      intro _ s1 h1
+      exact h1
+
+theorem safe_readSettings (s : St) (h : Good s) : Safe (readSettings s) := by
+  unfold readSettings
+  have h1 := safe_readFrameHeader s h
+  ocases h1 : readFrameHeader s
+  rename_i ft s1
+  split
+  · exact h1
+  · exact safe_settingsLoop _ _ _ h1
+
+/-! ### qpack.go / qpack_decode.go -/
+
+theorem safe_readUvarintAux : ∀ (k x m : Nat) (s : St), Good s → Safe (readUvarintAux k x m s) := by
+  intro k
+  induction k with
+  | zero => intro x m s h; exact h
+  | succ k ih =>
+    intro x m s h
+    unfold readUvarintAux
+    have h1 := safe_readByte s h
+    ocases h1 : readByte s
+    rename_i b s1
+    repeat' split
+    all_goals (first | exact h1 | exact ih _ _ _ h1)
+
+theorem safe_readPrefixedIntWithByte (s : St) (first p : Nat) (h : Good s) :
+    Safe (readPrefixedIntWithByte s first p) := by
+  unfold readPrefixedIntWithByte
+  simp only
+  split
+  · exact h
+  · have h1 := safe_readUvarintAux 10 0 1 s h
+    unfold readUvarint
+    ocases h1 : readUvarintAux 10 0 1 s
+    split <;> exact h1
+
+theorem safe_readPrefixedInt (s : St) (p : Nat) (h : Good s) : Safe (readPrefixedInt s p) := by
+  unfold readPrefixedInt
+  have h1 := safe_readByte s h
+  ocases h1 : readByte s
+  rename_i b s1
+  refine Safe.bind (safe_readPrefixedIntWithByte s1 b p h1) ?_
+  intro v s2 h2
+  exact h2
+
+/-- The one place that records an allocation: its capacity bound is covered by the bytes present. -/
+theorem safe_readPrefixedStringWithByte (H : Huff) (s : St) (first p : Nat) (h : Good s) :
+    Safe (readPrefixedStringWithByte H s first p) := by
+  unfold readPrefixedStringWithByte
+  have h1 := safe_readPrefixedIntWithByte s first p h
+  ocases h1 : readPrefixedIntWithByte s first p
+  rename_i size s1
+  split
+  · exact h1
+  · have hg : Good { s1 with allocs := (2 * min size s1.data.length + 512, s1.data.length) :: s1.allocs } := by
+      refine ⟨h1.1, ?_⟩
+      intro a ha
+      simp only [List.mem_cons] at ha
+      rcases ha with rfl | ha
+      · simp only; have := Nat.min_le_right size s1.data.length; omega
+      · exact h1.2 a ha
+    have h2 := safe_readFull _ size hg
+    ocases h2 : readFull { s1 with allocs := (2 * min size s1.data.length + 512, s1.data.length) :: s1.allocs } size
+    repeat' split
+    all_goals exact h2
+
+theorem safe_readPrefixedString (H : Huff) (s : St) (p : Nat) (h : Good s) : Safe (readPrefixedString H s p) := by
+  unfold readPrefixedString
+  have h1 := safe_readByte s h
+  ocases h1 : readByte s
+  rename_i b s1
+  refine Safe.bind (safe_readPrefixedStringWithByte H s1 b p h1) ?_
+  intro v s2 h2
+  exact h2
+
+theorem safe_decodeFieldLine (H : Huff) (tbl : List (List Nat × List Nat)) (s : St) (b : Nat) (h : Good s) :
+    Safe (decodeFieldLine H tbl s b) := by
+  unfold decodeFieldLine
+  repeat' split
+  · unfold decodeIndexedFieldLine
+    refine Safe.bind (safe_readPrefixedIntWithByte s b 6 h) ?_
+    intro i s1 h1
+    repeat' split
+    all_goals exact h1
+  · unfold decodeLiteralNameRef
+    refine Safe.bind (safe_readPrefixedIntWithByte s b 4 h) ?_
+    intro i s1 h1
+    repeat' split
+    · refine Safe.bind (safe_readPrefixedString H s1 7 h1) ?_
+      intro r s2 h2
+      exact h2
+    all_goals exact h1
+  · unfold decodeLiteralLiteralName
+    refine Safe.bind (safe_readPrefixedStringWithByte H s b 3 h) ?_
+    intro n s1 h1
+    refine Safe.bind (safe_readPrefixedString H s1 7 h1) ?_
+    intro r s2 h2
+    exact h2
+  · exact h
+  · exact h
+
+theorem safe_decodeLoop (H : Huff) (tbl : List (List Nat × List Nat)) :
+    ∀ (fuel : Nat) (s : St) (saw : Bool) (acc : List Field), Good s →
+    Safe (decodeLoop H tbl fuel s saw acc).final := by
+  intro fuel
+  induction fuel with
+  | zero => intro s saw acc _; exact True.intro
+  | succ f ih =>
+    intro s saw acc h
+    unfold decodeLoop
+    split
+    · have h1 := safe_readByte s h
+      ocases h1 : readByte s
+      rename_i b s1
+      have h2 := safe_decodeFieldLine H tbl s1 b h1
+      ocases h2 : decodeFieldLine H tbl s1 b
+      rename_i fl s2
+      repeat' split
+      all_goals (first | exact h2 | exact ih _ _ _ h2)
+    · exact h
+
+theorem safe_decode (H : Huff) (tbl : List (List Nat × List Nat)) (s : St) (h : Good s) :
+    Safe (decode H tbl s).final := by
+  unfold decode
+  have h1 := safe_readPrefixedInt s 8 h
+  ocases h1 : readPrefixedInt s 8
+  rename_i r s1
+  split
+  · exact h1
+  · have h2 := safe_readPrefixedInt s1 7 h1
+    ocases h2 : readPrefixedInt s1 7
+    rename_i r2 s2
+    exact safe_decodeLoop H tbl _ _ _ _ h2
+
+/-! ### body.go -/
+
+def SafeB : BRes → Prop
+  | .done _ _ _ s => Good s
+  | .panic => False
+  | .hang => True
+
+def SafeNext : Option BRes × St → Prop
+  | (some r, _) => SafeB r
+  | (none, s) => Good s
+
+theorem safe_bodyNextFrame (H : Huff) (tbl : List (List Nat × List Nat)) (b : Body) :
+    ∀ (fuel : Nat) (s : St), Good s → SafeNext (bodyNextFrame H tbl b fuel s) := by
+  intro fuel
+  induction fuel with
+  | zero => intro s _; exact True.intro
+  | succ f ih =>
+    intro s h
+    unfold bodyNextFrame
+    split
+    · have h1 := safe_readFrameHeader s h
+      ocases h1 : readFrameHeader s
+      · rename_i ft s1
+        split
+        · split
+          · exact h1
+          · exact h1
+        · split
+          · split
+            · exact h1
+            · have h2 := safe_decode H tbl s1 h1
+              ocases h2 : (decode H tbl s1).final
+              rename_i u s2
+              have h3 := safe_discardFrame s2 h2
+              ocases h3 : discardFrame s2
+              exact h3
+          · have h2 := safe_discardUnknownFrame s1 ft h1
+            ocases h2 : discardUnknownFrame s1 ft
+            exact ih _ h2
+      · rename_i e s1
+        split <;> exact h1
+    · exact h
+
+theorem safe_afterEnd (b : Body) (s : St) (h : Good s) :
+    SafeNext (if s.lim = 0 then
+        match endFrame s with
+        | .ok _ s1 => (none, s1)
+        | .err e s1 => (some (bodyFail b s1 e), s1)
+        | .panic => (some .panic, s)
+        | .hang => (some .hang, s)
+      else (none, s)) := by
+  split
+  · have h1 := safe_endFrame s h
+    generalize endFrame s = x at h1 ⊢
+    cases x
+    · exact h1
+    · exact h1
+    · exact False.elim h1
+    · exact True.intro
+  · exact h
+
+theorem safe_bodyTail (b : Body) (s2 : St) (k' : Nat) (h2 : Good s2) :
+    SafeB (match NetVerif.Model.H3Stream.read s2 k' with
+        | .ok (bs, eof) s3 =>
+          let b' : Body := { b with remain := if b.remain > 0 then b.remain - bs.length else b.remain }
+          if eof then .done bs (some .eof) { b' with err := some .eof } s3 else .done bs none b' s3
+        | .err e s3 => .done [] (some e) { b with err := some e } s3
+        | .panic => .panic
+        | .hang => .hang) := by
+  have h3 := safe_read s2 k' h2
+  generalize NetVerif.Model.H3Stream.read s2 k' = x at h3 ⊢
+  cases x with
+  | ok r s3 => obtain ⟨bs, eof⟩ := r; dsimp only; split <;> exact h3
+  | err e s3 => exact h3
+  | panic => exact False.elim h3
+  | hang => exact True.intro
+
+theorem safe_bodyRead (H : Huff) (tbl : List (List Nat × List Nat)) (b : Body) (s : St) (k : Nat) (h : Good s) :
+    SafeB (bodyRead H tbl b s k) := by
+  unfold bodyRead
+  split
+  · exact h
+  · dsimp only
+    have hae := safe_afterEnd b s h
+    split
+    · rename_i r s' heq
+      rw [heq] at hae; exact hae
+    · rename_i s1 heq
+      rw [heq] at hae
+      have h1 : Good s1 := hae
+      have hn := safe_bodyNextFrame H tbl b (s1.data.length + 2) s1 h1
+      split
+      · rename_i r s' heq2
+        rw [heq2] at hn; exact hn
+      · rename_i s2 heq2
+        rw [heq2] at hn
+        exact safe_bodyTail b s2 _ hn
+
+theorem safe_bodyDrain (H : Huff) (tbl : List (List Nat × List Nat)) (k : Nat) :
+    ∀ (fuel : Nat) (b : Body) (s : St) (acc : List Nat), Good s → Safe (bodyDrain H tbl k fuel b s acc).2 := by
+  intro fuel
+  induction fuel with
+  | zero => intro b s acc _; exact True.intro
+  | succ f ih =>
+    intro b s acc h
+    unfold bodyDrain
+    have h1 := safe_bodyRead H tbl b s k h
+    revert h1
+    cases bodyRead H tbl b s k with
+    | done bs e b' s' =>
+      intro h1
+      have h1 : Good s' := h1
+      cases e with
+      | none => exact ih _ _ _ h1
+      | some e => cases e <;> exact h1
+    | panic => intro h1; exact False.elim h1
+    | hang => intro _; exact True.intro
+
+/-! ### conn.go -/
+
+theorem safe_requestHandler (H : Huff) (tbl : List (List Nat × List Nat)) (k : Nat) (s : St) (h : Good s) :
+    Safe (requestHandler H tbl k s).2 := by
+  unfold requestHandler
+  have h1 := safe_readFrameHeader s h
+  ocases h1 : readFrameHeader s
+  rename_i ft s1
+  split
+  · exact h1
+  · have h2 := safe_decode H tbl s1 h1
+    ocases h2 : (decode H tbl s1).final
+    rename_i u s2
+    have h3 := safe_endFrame s2 h2
+    ocases h3 : endFrame s2
+    rename_i u3 s3
+    exact safe_bodyDrain H tbl k _ _ _ _ h3
+
+theorem finish_no_panic (o : Out Unit) (h : Safe o) : finish o ≠ .panic := by
+  unfold finish handleStreamError
+  cases o with
+  | ok a s => have := h.1; simp [this]
+  | err e s => have := h.1; cases e <;> simp [this]
+  | panic => exact False.elim h
+  | hang => simp
+
+theorem good_fresh (data : List Nat) : Good (St.fresh data) := ⟨rfl, by intro a ha; cases ha⟩
+
+theorem safe_controlLoop : ∀ (fuel : Nat) (s : St), Good s → Safe (controlLoop fuel s) := by
+  intro fuel
+  induction fuel with
+  | zero => intro s _; exact True.intro
+  | succ f ih =>
+    intro s h
+    unfold controlLoop
+    have h1 := safe_readFrameHeader s h
+    ocases h1 : readFrameHeader s
+    rename_i ft s1
+    split
+    · exact h1
+    · split
+      · exact h1
+      · have h2 := safe_discardUnknownFrame s1 ft h1
+        ocases h2 : discardUnknownFrame s1 ft
+        exact ih _ h2
+
+theorem safe_handleControlStream (s : St) (h : Good s) : Safe (handleControlStream s) := by
+  unfold handleControlStream
+  have h1 := safe_readSettings s h
+  ocases h1 : readSettings s
+  exact safe_controlLoop _ _ h1
+
+theorem handleUni_no_panic (data : List Nat) : handleUni (St.fresh data) ≠ .panic := by
+  unfold handleUni
+  have h1 := safe_readVarint (St.fresh data) (good_fresh data)
+  revert h1
+  cases readVarint (St.fresh data) with
+  | ok stype s1 =>
+    intro h1
+    have h1 : Good s1 := h1
+    simp only
+    split
+    · have h2 := safe_handleControlStream s1 h1
+      revert h2
+      cases handleControlStream s1 with
+      | ok a s2 => intro h2; exact finish_no_panic _ h2
+      | err e s2 =>
+        intro h2
+        have hd : s2.dead = false := (show Good s2 from h2).1
+        cases e <;> simp [finish, handleStreamError, hd]
+      | panic => intro h2; exact False.elim h2
+      | hang => intro _; simp [finish]
+    · split
+      · simp [handleStreamError]
+      · simp [handleStreamError, h1.1]
+  | err e s1 => intro _; simp
+  | panic => intro h1; exact False.elim h1
+  | hang => intro _; simp
 
 end NetVerif.Proofs.H3Safe
